@@ -418,12 +418,19 @@ class AbstractPathModelDAG(ABC):
 
         # edge_position_vars[(u, v, i)] = position (i.e., index) 
         # of the edge (u, v) in the path i, starting from position 0. 
+        # Positions and path lengths are sums of edge lengths: they are integer only if all the lengths are
+        length_var_type = "integer"
+        if self.length_attr is not None and any(
+            self.G[u][v].get(self.length_attr, 1) != round(self.G[u][v].get(self.length_attr, 1)) for (u,v) in self.G.edges()
+        ):
+            length_var_type = "continuous"
+
         if self.encode_edge_position:
             max_length = self.G.number_of_nodes()
             if self.length_attr is not None:
                 max_length = sum(self.G[u][v].get(self.length_attr, 1) for (u,v) in self.G.edges())
             self.edge_position_vars = self.solver.add_variables(
-                self.edge_indexes, name_prefix="position", lb=0, ub=max_length, var_type="integer"
+                self.edge_indexes, name_prefix="position", lb=0, ub=max_length, var_type=length_var_type
             )
             for i in range(self.k):
                 for (u,v) in self.G.edges():
@@ -443,7 +450,7 @@ class AbstractPathModelDAG(ABC):
             if self.length_attr is not None:
                 max_length = sum(self.G[u][v].get(self.length_attr, 1) for (u,v) in self.G.edges())
             self.path_length_vars = self.solver.add_variables(
-                self.path_indexes, name_prefix="path_length", lb=0, ub=max_length, var_type="integer"
+                self.path_indexes, name_prefix="path_length", lb=0, ub=max_length, var_type=length_var_type
             )
             for i in range(self.k):
                 self.solver.add_constraint(
